@@ -5,7 +5,7 @@ import prelude, gen, der
 from check import canon_exc, hx
 
 MANIFEST = {
-    "text": "Lean theorems: blob_layout (the emitted bytes are exactly the minimal-DER encoding of the RFC 5652 ContentInfo/EnvelopedData tree with versions 2 and 4, one KEKRecipientInfo whose KEK identifier carries the protection-descriptor attribute, the given algorithm identifiers — in both layouts), unpack_pack (decode(encode x) = x for every well-formed blob value, both layouts), protDesc_roundtrip, built on the C07 TLV theorems and the C11 key-identifier round trip; DPAPINGBlob.pack/unpack, ProtectionDescriptor and the _pkcs7 classes are tied to the model by correspondence across DER length boundaries, and every emitted blob is re-read by an independent strict DER parser and compared with a template built from the standard; the 17 Windows blobs must re-encode byte-identically; every pack method of _pkcs7.py and ProtectionDescriptor.pack is regenerated from source on every run as an ASN.1 writer program (nested push_sequence / push_set_of blocks, write_* calls with their tags, `if self.f:` guards, sub-object packs, the recipient loop) and every unpack classmethod as a reader program (read_sequence entries, typed reads with tags, peek_header / header tests, `if reader:` guards, get_remaining_data, the SET OF loop, the version test, the RecipientInfo choice dispatch, the protection-descriptor guard, the constructor keyword table); DPAPINGBlob.pack itself is regenerated as a pack plan (constructor trees, literals, class constants, writer rounds, the final join) with the CMS dataclass schema table, and blobPack_eq_plan proves the model of the whole function equal to its interpretation; 18 theorems (…Pack_eq_prog, …Unpack_eq_prog, blobPack_eq_plan) prove the hand-written Lean models equal to the interpretation of those programs, and the regenerated programs must equal the proved ones (rfl)",
+    "text": "Lean theorems: blob_layout (the emitted bytes are exactly the minimal-DER encoding of the RFC 5652 ContentInfo/EnvelopedData tree with versions 2 and 4, one KEKRecipientInfo whose KEK identifier carries the protection-descriptor attribute, the given algorithm identifiers — in both layouts), unpack_pack (decode(encode x) = x for every well-formed blob value, both layouts), protDesc_roundtrip, built on the C07 TLV theorems and the C11 key-identifier round trip; DPAPINGBlob.pack/unpack, ProtectionDescriptor and the _pkcs7 classes are tied to the model by correspondence across DER length boundaries, and every emitted blob is re-read by an independent strict DER parser and compared with a template built from the standard; the 17 Windows blobs must re-encode byte-identically; every pack method of _pkcs7.py and ProtectionDescriptor.pack is regenerated from source on every run as an ASN.1 writer program (nested push_sequence / push_set_of blocks, write_* calls with their tags, `if self.f:` guards, sub-object packs, the recipient loop) and every unpack classmethod as a reader program (read_sequence entries, typed reads with tags, peek_header / header tests, `if reader:` guards, get_remaining_data, the SET OF loop, the version test, the RecipientInfo choice dispatch, the protection-descriptor guard, the constructor keyword table); DPAPINGBlob.pack itself is regenerated as a pack plan (constructor trees, literals, class constants, writer rounds, the final join) with the CMS dataclass schema table, and blobPack_eq_plan proves the model of the whole function equal to its interpretation; DPAPINGBlob.unpack likewise as an unpack plan (split at the outer ContentInfo, rejection tests as lists of disjuncts, unpack calls on attribute paths, `or` fallbacks, constructor keywords) with blobUnpack_eq_plan; 19 theorems (…Pack_eq_prog, …Unpack_eq_prog, blobPack_eq_plan, blobUnpack_eq_plan) prove the hand-written Lean models equal to the interpretation of those programs, and the regenerated programs must equal the proved ones (rfl)",
     "note": "Trusted: Lean kernel; hand-written model (differential tie + TLV kernels); text fields enter the model as UTF-8/UTF-16 bytes (codecs are CPython's); strict-DER reading of X.690 in harness/der.py",
     "technique": "Lean 4 proof (composition of TLV round trips; spec-tree equality) + kernel extraction + correspondence + independent strict DER parser",
 }
